@@ -128,7 +128,8 @@ Section FP.
 
   Lemma export_write_cases exportable dwr size0 rnum rref start0 flags xt bytes start flags' :
     export_write compress exportable dwr size0 rnum rref start0 flags = Ok (xt, bytes, start, flags') ->
-    (xt = None /\ bytes = [] /\ start = start0 /\ flags' = flags) \/
+    (xt = None /\ bytes = [] /\ start = start0 /\ flags' = flags /\
+     (exportable = false \/ export_add (dw_export dwr) rnum rref = Common.Ok None)) \/
     (exists l, xt = Some l /\ write_table compress size0 (concat (map le64 l)) = Common.Ok (bytes, start) /\
                export_add (dw_export dwr) rnum rref = Common.Ok (Some l) /\
                flags' = flag_set flags c_SQFS_FLAG_EXPORTABLE).
@@ -141,10 +142,10 @@ Section FP.
         injection E as <- <- <-. intro H. injection H as <- <- <- <-. right. exists l. cbn [dw_export].
         split; [reflexivity|]. split; [exact W|]. split; [reflexivity|reflexivity].
       + injection E as <- <- <-. intro H. injection H as <- <- <- <-. left.
-        split; [|repeat split].
+        split; [|split; [reflexivity|split; [reflexivity|split; [reflexivity|right; reflexivity]]]].
         unfold export_add in X. destruct (dw_export dwr) as [l|]; [|reflexivity].
         destruct (rnum <? 1); discriminate.
-    - intro H. injection H as <- <- <- <-. left. repeat split.
+    - intro H. injection H as <- <- <- <-. left. repeat split. left. reflexivity.
   Qed.
 
   Lemma xattr_write_cases no_xattr x size0 start0 flags bytes start flags' :
